@@ -153,8 +153,9 @@ func c01R1(p *core.Prog, r *core.Report) {
 						hasStream = true
 					case "WithDesc":
 						hasDesc = true
-						for _, o := range core.Origins(oc.Call.Args[0], core.SliceOpts{}) {
-							if o.Kind == core.OParam && core.IsModNamed(o.Param.Type(), "types/descriptor", "Descriptor") {
+						hs := core.Helpers(fn, 2)
+						for _, o := range core.Origins(oc.Call.Args[0], core.SliceOpts{Helpers: hs, Callers: map[*ssa.Function]bool{fn: true}}) {
+							if o.Kind == core.OParam && o.Param.Parent() == fn && core.IsModNamed(o.Param.Type(), "types/descriptor", "Descriptor") {
 								descFromParam = true
 							}
 							if o.Kind == core.OFree {
@@ -173,12 +174,79 @@ func c01R1(p *core.Prog, r *core.Report) {
 					r.Violated(rule, fname, label, p.Pos(c.Pos()), "the reader wraps a stream without WithDesc: its expected digest and size come only from response headers (or are learned from the stream itself), so corrupted or substituted content reads to a clean EOF")
 				case !descFromParam:
 					r.Violated(rule, fname, label, p.Pos(c.Pos()), "WithDesc does not carry the descriptor the caller asked for")
+				case overwrites(fn) != "":
+					r.Violated(rule, fname, label, p.Pos(c.Pos()), "the caller's descriptor is changed on its way into the reader: "+overwrites(fn)+" — what the caller stated (size, digest) is what the stream is checked against, so it may only be filled in where it was left unset")
 				default:
 					r.Held(rule, fname, label, p.Pos(c.Pos()), "verifies against the caller's descriptor")
 				}
 			}
 		}
 	}
+}
+
+// overwrites: in fn or an unexported helper it calls, the Size or Digest of a descriptor that came in
+// as a parameter is stored without a dominating test that the field was unset. Returns a description.
+func overwrites(fn *ssa.Function) string {
+	for _, f := range sortedFuncs(core.Helpers(fn, 2)) {
+		for _, b := range f.Blocks {
+			for _, in := range b.Instrs {
+				st, ok := in.(*ssa.Store)
+				if !ok {
+					continue
+				}
+				fa, ok := st.Addr.(*ssa.FieldAddr)
+				if !ok || !core.IsModNamed(fa.X.Type(), "types/descriptor", "Descriptor") {
+					continue
+				}
+				name := core.FieldName(fa.X.Type(), fa.Field)
+				if name != "Size" && name != "Digest" {
+					continue
+				}
+				// the cell holds a parameter of f
+				cell, ok := fa.X.(*ssa.Alloc)
+				if !ok {
+					continue
+				}
+				isParam := false
+				for _, cs := range core.StoresToCell(cell) {
+					if _, ok := cs.Val.(*ssa.Parameter); ok {
+						isParam = true
+					}
+				}
+				if !isParam {
+					continue
+				}
+				guarded := false
+				for _, g := range core.Guards(b) {
+					c, pol := core.StripNot(g.Cond, g.Polarity)
+					bo, ok := c.(*ssa.BinOp)
+					if !ok || !pol && bo.Op != token.NEQ && bo.Op != token.GTR {
+						continue
+					}
+					for _, side := range []ssa.Value{bo.X, bo.Y} {
+						if ld, ok := side.(*ssa.UnOp); ok {
+							if gfa, ok := ld.X.(*ssa.FieldAddr); ok && gfa.X == fa.X && gfa.Field == fa.Field {
+								guarded = true
+							}
+						}
+						if cc, ok := side.(*ssa.Call); ok { // d.Digest.Validate() != nil and the like
+							for _, a := range cc.Call.Args {
+								if ld, ok := a.(*ssa.UnOp); ok {
+									if gfa, ok := ld.X.(*ssa.FieldAddr); ok && gfa.X == fa.X && gfa.Field == fa.Field {
+										guarded = true
+									}
+								}
+							}
+						}
+					}
+				}
+				if !guarded {
+					return name + " is overwritten in " + f.Name()
+				}
+			}
+		}
+	}
+	return ""
 }
 
 // readCtx holds the Read method and helpers to recognise its comparisons.
